@@ -244,7 +244,10 @@ def code(r):
        | (r['dr'] is not None) << 5 | (r['dr'] or 0) << 6 | r['ef'] << 7 | r['df'] << 8 | r['ein'] << 9 | r['din'] << 10
        | (r['cnt'] is not None) << 11)
   a, b, c, regs = r['ints']
-  return f'(({f},{r["msg"]},{r["out"]},{r["cnt"] or 0}),({a},{b},{c},[{";".join(map(str, regs))}]))'
+  x = f | r['msg'] << 12 | r['out'] << 20 | (r['cnt'] or 0) << 28 | a << 32 | b << 36 | c << 40 | len(regs) << 44
+  for j, v in enumerate(regs): x |= v << (48 + 8 * j)
+  assert 0 <= r['msg'] < 256 and 0 <= r['out'] < 256 and 0 <= (r['cnt'] or 0) < 16 and max(a, b, c, len(regs)) < 16
+  return hex(x)
 
 def case_term(d, hist):
   return f'({d.mid}, {d.kind}, {d.n}, [' + ';'.join(code(r) for r in hist) + '])'
